@@ -23,9 +23,21 @@ atexit.register(shutil.rmtree, BASE, True)
 
 
 def pool_weights(st, beta):
-    lw, lz = st.compute_logw_and_logz(beta)
-    w = np.exp(lw - lw.max())
-    return w / w.sum(), lz
+    """independent evaluation (long double) of the pool's normalised balance-heuristic weights and log-evidence at `beta`, from the
+    raw stored history — not through the library's own compute_logw_and_logz"""
+    ls = [np.asarray(a, dtype=np.longdouble) for a in st._history["logl"]]
+    bt = np.asarray(st._history["beta"], dtype=np.longdouble)
+    zs = np.asarray(st._history["logz"], dtype=np.longdouble)
+    n = np.array([len(a) for a in ls], dtype=np.longdouble)
+    l = np.concatenate(ls)
+    comp = l[:, None] * bt[None, :] - zs[None, :] + np.log(n / n.sum())[None, :]
+    mx = comp.max(axis=1)
+    lmix = mx + np.log(np.exp(comp - mx[:, None]).sum(axis=1))
+    u = np.longdouble(beta) * l - lmix
+    m = u.max()
+    L = m + np.log(np.exp(u - m).sum())
+    w = np.exp(u - L)
+    return np.asarray(w / w.sum(), dtype=float), float(L - np.log(n.sum()))
 
 
 def ess_of(w):
@@ -226,6 +238,23 @@ def main():
                     found.append((self.state.get_current("iter"), r))
                 return orig(self)
             Reweighter.run = audited
+            from tempest.steps.resample import Resampler as _RS
+            from tempest.steps.train import Trainer as _TR
+            o_rs, o_tr = _RS.run, _TR.run
+
+            def handed(kind, orig_step, found=found):
+                def step(self, weights, *a, **k):
+                    if not found and self.state.get_history_length() > 0:
+                        wt, _ = pool_weights(self.state, self.state.get_current("beta"))
+                        w = np.asarray(weights, dtype=float)
+                        if len(w) != len(wt) or np.abs(w / w.sum() - wt).max() > 1e-9 * max(1.0, wt.max()) + 1e-12:
+                            nz = int(((w == 0) & (wt > 0)).sum()) if len(w) == len(wt) else -1
+                            found.append((self.state.get_current("iter"),
+                                          f"the weights handed to the {kind} step are not the pool's weights at the recorded beta = "
+                                          f"{self.state.get_current('beta'):.6g}" + (f" ({nz} pool members with positive weight were handed weight 0)" if nz > 0 else "")))
+                    return orig_step(self, weights, *a, **k)
+                return step
+            _TR.run, _RS.run = handed("training", o_tr), handed("resampling", o_rs)
             try:
                 np.random.seed(seed + 3)
                 s = tempest.Sampler(lambda u: 10 * u - 5, lambda x: -0.5 * float(np.sum((x - 1.0) ** 2) / 0.2), n_dim=2, random_state=seed + 3,
@@ -235,6 +264,7 @@ def main():
                 found.append((-1, f"seeded run raised {type(e).__name__}: {e}"))
             finally:
                 Reweighter.run = orig
+                _TR.run, _RS.run = o_tr, o_rs
             tried += 1
             if found:
                 print(json.dumps({"reproduced": True, "tried": tried, "detail": f"iteration {found[0][0]}: {found[0][1]}", "input": {"sampler_options": kw, "seed": seed + 3}}, default=str))
